@@ -40,6 +40,8 @@ structure OutEntry where
   body : Nat
   /-- index of the input entry this is, `none` for an inserted base -/
   src : Option Nat
+  /-- ghost: the id of the object an inserted base is (never read by the iterator) -/
+  baseId : Option Nat := none
   deriving DecidableEq, Repr
 
 /-- number of 7-bit groups needed after the first `bits` bits -/
@@ -116,7 +118,7 @@ def injectOne (fix : Fix) (odb : Nat → Option (Nat × Nat)) (st : IState) (idx
       match odb id with
       | some (bh, bb) =>
         let baseOfs := shifted st e.ofs
-        let st := { st with out := st.out ++ [{ ofs := baseOfs, hdr := Hdr.base, hsize := bh, body := bb, src := none }] }
+        let st := { st with out := st.out ++ [{ ofs := baseOfs, hdr := Hdr.base, hsize := bh, body := bb, src := none, baseId := some id }] }
         let st := trackChange st baseOfs e.ofs ((bh + bb : Nat) : Int) (some id)
         some (shiftAndPoint st idx e (bh + bb))
       | none => none
